@@ -6,6 +6,7 @@ mod util;
 mod c02;
 mod c03;
 mod c06;
+mod c07;
 mod c10;
 mod c11;
 mod c13;
@@ -42,6 +43,7 @@ fn main() {
         "c02" => c02::run(&args),
         "c03" => c03::run(&args),
         "c06" => c06::run(&args),
+        "c07" => c07::run(&args),
         "c10" => c10::run(&args),
         "c11" => c11::run(&args),
         "c11-child" => c11::run_child(&args),
